@@ -20,22 +20,31 @@ type jsonEntry struct {
 	t types.Type
 }
 
-func deepCopy(v value, t types.Type) value {
+// deepCopy copies v (of type t).  With jsonMode it keeps only what encoding/json
+// transports: fields tagged json:"-" and unexported fields become zero values.
+func deepCopy(v value, t types.Type) value { return deepCopyM(v, t, false) }
+
+func deepCopyM(v value, t types.Type, jsonMode bool) value {
 	switch tt := t.Underlying().(type) {
 	case *types.Pointer:
 		p, ok := v.(*value)
 		if !ok || p == nil {
 			return v
 		}
-		c := deepCopy(*p, tt.Elem())
+		c := deepCopyM(*p, tt.Elem(), jsonMode)
 		return &c
 	case *types.Struct:
 		s := v.(structure)
 		out := make(structure, len(s))
 		for k := range s {
-			out[k] = deepCopy(s[k], tt.Field(k).Type())
+			if jsonMode && (!tt.Field(k).Exported() || strings.HasPrefix(reflect.StructTag(tt.Tag(k)).Get("json"), "-")) {
+				out[k] = zero(tt.Field(k).Type())
+				continue
+			}
+			out[k] = deepCopyM(s[k], tt.Field(k).Type(), jsonMode)
 		}
 		return out
+
 	case *types.Map:
 		switch m := v.(type) {
 		case map[value]value:
@@ -44,7 +53,7 @@ func deepCopy(v value, t types.Type) value {
 			}
 			out := make(map[value]value, len(m))
 			for k, e := range m {
-				out[k] = deepCopy(e, tt.Elem())
+				out[k] = deepCopyM(e, tt.Elem(), jsonMode)
 			}
 			return out
 		case *hashmap:
@@ -61,14 +70,14 @@ func deepCopy(v value, t types.Type) value {
 		}
 		out := make([]value, len(s))
 		for k := range s {
-			out[k] = deepCopy(s[k], tt.Elem())
+			out[k] = deepCopyM(s[k], tt.Elem(), jsonMode)
 		}
 		return out
 	case *types.Array:
 		a := v.(array)
 		out := make(array, len(a))
 		for k := range a {
-			out[k] = deepCopy(a[k], tt.Elem())
+			out[k] = deepCopyM(a[k], tt.Elem(), jsonMode)
 		}
 		return out
 	case *types.Interface:
@@ -76,7 +85,7 @@ func deepCopy(v value, t types.Type) value {
 		if f.t == nil {
 			return f
 		}
-		return iface{t: f.t, v: deepCopy(f.v, f.t)}
+		return iface{t: f.t, v: deepCopyM(f.v, f.t, jsonMode)}
 	}
 	return v
 }
@@ -104,7 +113,7 @@ func (i *interpreter) jsonMarshal(arg value) value {
 	if f.t == nil {
 		return tuple{bytesOf("null"), iface{}}
 	}
-	i.jsonHeap = append(i.jsonHeap, jsonEntry{deepCopy(f.v, f.t), f.t})
+	i.jsonHeap = append(i.jsonHeap, jsonEntry{deepCopyM(f.v, f.t, true), f.t})
 	return tuple{bytesOf(fmt.Sprintf("%s%d", jsonMagic, len(i.jsonHeap)-1)), iface{}}
 }
 
